@@ -74,7 +74,32 @@ public:
     {
         auto storage =
             default_allocator().allocate_node(sizeof(temporary_stack), alignof(temporary_stack));
-        return ::new (storage) temporary_stack(0, size);
+        // note: only a completely constructed stack is put into the list,
+        // the constructor allocates the first block and can throw
+        temporary_stack* stack = nullptr;
+#if FOONATHAN_HAS_EXCEPTION_SUPPORT
+        try
+        {
+            stack = ::new (storage) temporary_stack(size);
+        }
+        catch (...)
+        {
+            default_allocator().deallocate_node(storage, sizeof(temporary_stack),
+                                                alignof(temporary_stack));
+            throw;
+        }
+#else
+        stack = ::new (storage) temporary_stack(size);
+#endif
+        push(*stack);
+        return stack;
+    }
+
+    void push(temporary_stack_list_node& node) noexcept
+    {
+        node.next_ = first.load();
+        while (!first.compare_exchange_weak(node.next_, &node))
+            ;
     }
 
     temporary_stack* find_unused()
